@@ -59,8 +59,15 @@ def r7_1(ctx):
         tt, tf = be2
         reg = f.reachable(tt, removed_edges=back) - f.reachable(tf, removed_edges=back)
         names = sorted({(callee_name(t) or "").split("::")[-1] for bb, t in f.calls() if bb in reg and "LineParser::" in (callee_name(t) or "")})
-        ctx.check(names == ["end_testcase", "has_testcase_body"], "empty-ends-testcase", f.loc(nb2), "an empty line ends the current test case (if there is one) and nothing else",
-                  "an empty line triggers %s" % names)
+        ctx.check("end_testcase" in names and set(names) <= {"end_testcase", "has_testcase_body"}, "empty-ends-testcase", f.loc(nb2),
+                  "an empty line ends the current test case and nothing else", "an empty line triggers %s" % names)
+        # .. on every path (F33): end_testcase is also what drops the exit code line of a body-less run; a path around it keeps `[n]` for the next command
+        ends = [bb for bb, t in f.calls() if bb in reg and (callee_name(t) or "").endswith("LineParser::end_testcase")]
+        tails = {b_ for b_, _h in back}
+        esc = set(f.reachable(tt, removed_blocks=ends, removed_edges=back)) & tails
+        ctx.check(bool(ends) and not esc, "empty-always-ends", f.loc(nb2), "at an empty line end_testcase is passed on every path to the next line",
+                  "at an empty line the next line can be reached without end_testcase (e.g. only `if has_testcase_body()`): an indented exit code line without a command - "
+                  "`  [1]`, empty line, `  $ false` - keeps its `[1]` for the next test case, which then passes")
     # indented edge / title edge
     nb3 = pt["target"]
     ve, rv = variant_edges(f, nb3)
@@ -222,6 +229,45 @@ def parser_state_rules(ctx):
               "every Ok path of end_testcase flushes the parser state or resets the parsed exit code (%d flush, %d reset site(s))" % (len(flushes), len(resets)),
               "end_testcase can return Ok without flush() and without resetting `%s`: the exit code line of a block without a command is carried over "
               "into the next test case (a following `$ false` without `[n]` is reported as succeeded)" % f_exit)
+    # inside the parsers' loops the decision to close the state does not depend on the state: a guard like `if parser.has_testcase_body()` around
+    # end_testcase skips exactly the call that would drop the exit code line of a body-less block / run (after the loop, at the end of the document,
+    # nothing can follow and such a guard is harmless)
+    from ..cfgq import bool_edges, cond_tree, switches
+    n_calls = 0
+    for pf in (prog.impl_fn("MarkdownParser", "Parser", "parse"), prog.impl_fn("CramParser", "Parser", "parse")):
+        po = Origins(pf)
+        back = pf.back_edges()
+        in_loop = set()
+        for b_, h_ in back:
+            body_, stack_ = {h_, b_}, [b_]
+            while stack_:
+                x_ = stack_.pop()
+                for p_ in pf.preds[x_]:
+                    if p_ not in body_ and pf.dominates(h_, p_):
+                        body_.add(p_)
+                        stack_.append(p_)
+            in_loop |= body_
+        ends = [bb for bb, t in pf.calls() if (callee_name(t) or "").endswith("LineParser::end_testcase") and bb in in_loop]
+        n_calls += len(ends)
+        gated = []
+        for sb, st in switches(pf):
+            be = bool_edges(pf, sb)
+            if be is None or sb not in in_loop:
+                continue
+            tree = cond_tree(pf, sb, po)
+            getters = sorted({method_name(c) for c in tree.call_names() if ("LineParser::" in c or method_name(c).startswith("LineParser::")) and not method_name(c).endswith("::new")})
+            if not getters:
+                continue
+            r0, r1 = set(pf.reachable(be[0], removed_edges=back)), set(pf.reachable(be[1], removed_edges=back))
+            for eb in ends:
+                if (eb in r0) != (eb in r1):
+                    gated.append((pf.loc(sb), getters))
+        ctx.check(not gated, "close-not-state-dependent:" + pf.impl_self.split("::")[-1], gated[0][0] if gated else pf.where(),
+                  "inside the loop of %s no end_testcase call is guarded by a query of the line parser's own state (%d call(s))" % (pf.impl_self.split("::")[-1], len(ends)),
+                  "end_testcase is guarded by %s: a block / run without command and expectations (only `[n]`) is never closed, its exit code stays in the parser and "
+                  "becomes the expected exit code of the next test case (`$ false` reported as succeeded)" % (gated[0][1] if gated else ""))
+    if n_calls < 3:
+        ctx.bad("close-sites", "-", "only %d end_testcase calls found inside the parsers' loops (3 confirmed by reading)" % n_calls)
     # a flush helper, where it exists, clears the exit code (when it was inlined into end_testcase the stores are counted as resets above)
     fls = prog.find_fns("LineParser::flush")
     if fls:
